@@ -388,7 +388,41 @@ def r3(ctx):
   # downsample keeps values of the input only
   dsf = prog.func(V, 'VarzAggregator._Downsample')
   ys = [n for n in ast.walk(dsf.node) if isinstance(n, ast.Yield)]
-  ok = bool(ys) and all(U(y.value) in ('n', 'lst[-1]') for y in ys)
+  # values derived from the input list only: the list itself, sorted()/list()/slices of it, elements of those
+  derived = set(dsf.params[:1])
+
+  def from_input(e):
+    if isinstance(e, ast.Name):
+      return e.id in derived
+    if isinstance(e, ast.Subscript) and isinstance(e.slice, ast.Slice):
+      return from_input(e.value)
+    if isinstance(e, ast.Call) and isinstance(e.func, ast.Name) and e.func.id in ('sorted', 'list', 'tuple', 'reversed') and len(e.args) == 1 and not e.keywords:
+      return from_input(e.args[0])
+    return False
+  for _ in range(3):
+    for st in ast.walk(dsf.node):
+      if isinstance(st, ast.Assign) and len(st.targets) == 1 and isinstance(st.targets[0], ast.Name) and from_input(st.value):
+        derived.add(st.targets[0].id)
+  elems = set()
+  for lp in [x for x in ast.walk(dsf.node) if isinstance(x, ast.For)]:
+    it = lp.iter
+    if isinstance(it, ast.Call) and isinstance(it.func, ast.Name) and it.func.id == 'enumerate' and it.args and from_input(it.args[0]) and isinstance(lp.target, ast.Tuple) and len(lp.target.elts) == 2:
+      if isinstance(lp.target.elts[1], ast.Name):
+        elems.add(lp.target.elts[1].id)
+    elif from_input(it) and isinstance(lp.target, ast.Name):
+      elems.add(lp.target.id)
+  stores = {}
+  for n_ in ast.walk(dsf.node):
+    if isinstance(n_, ast.Name) and isinstance(n_.ctx, ast.Store):
+      stores[n_.id] = stores.get(n_.id, 0) + 1
+
+  def retained(v):
+    if isinstance(v, ast.Name):
+      return v.id in elems and stores.get(v.id, 0) <= sum(1 for lp in ast.walk(dsf.node) if isinstance(lp, ast.For) and any(isinstance(t_, ast.Name) and t_.id == v.id for t_ in ast.walk(lp.target)))
+    if isinstance(v, ast.Subscript) and not isinstance(v.slice, ast.Slice):
+      return from_input(v.value)
+    return False
+  ok = bool(ys) and all(y.value is not None and retained(y.value) for y in ys)
   ctx.ob('C18.R3', dsf, 'downsampling yields retained samples only', ok, 'yields %s' % [U(y.value) for y in ys], 'reported percentiles must come from retained samples')
   ss = prog.func(V, '_SampleSet.Sample')
   apps = [c for c in ast.walk(ss.node) if isinstance(c, ast.Call) and call_attr(c) == 'append']
